@@ -172,3 +172,56 @@ pub fn wire(frames: &[Frame]) -> Vec<u8> {
 pub fn describe(frames: &[Frame]) -> Vec<&'static str> {
     frames.iter().map(|f| f.name).collect()
 }
+
+/// Transfer-size menu for a read / write of at most `maxk` bytes. Index 0 is the default (everything).
+/// Ordinary scenarios (`coarse == false`, streams of at most 32 bytes): every size `maxk, maxk-1, .., 1`,
+/// all free - short reads and writes are ordinary behaviour and are enumerated exhaustively.
+/// Large-frame scenarios (`coarse == true`): transfers of up to 4 bytes (the length prefix) still offer
+/// every size for free; longer ones offer `maxk, 1, maxk/2, maxk-1`, each short one costing one deviation.
+pub fn size_menu(maxk: usize, coarse: bool) -> (Vec<usize>, Vec<u8>) {
+    if maxk == 0 {
+        (vec![0], vec![0])
+    } else if !coarse || maxk <= 4 {
+        ((1..=maxk).rev().collect(), vec![0; maxk])
+    } else {
+        let mut sizes = vec![maxk];
+        for k in [1, maxk / 2, maxk - 1] {
+            if !sizes.contains(&k) {
+                sizes.push(k);
+            }
+        }
+        let mut costs = vec![1u8; sizes.len()];
+        costs[0] = 0;
+        (sizes, costs)
+    }
+}
+
+/// A recycled buffer handed to `with_buffer`: stale content and spare capacity.
+pub fn dirty_buffer() -> Vec<u8> {
+    let mut v = Vec::with_capacity(64);
+    v.extend_from_slice(&[0xde, 0xad, 0xbe, 0xef, 0x81, 0x05, 0x00]);
+    v
+}
+
+/// Reference encoding of a `Vec<u8>` value: a definite array of unsigned integers, shortest heads.
+pub fn array_payload(v: &[u8]) -> Vec<u8> {
+    let mut p = refmodel::preferred_head(4, v.len() as u64);
+    for x in v {
+        p.extend_from_slice(&refmodel::preferred_head(0, *x as u64));
+    }
+    p
+}
+
+/// Frames whose payload length crosses a byte boundary of the 4-byte length prefix.
+pub fn large_frames() -> Vec<Frame> {
+    let mut out = Vec::new();
+    for (name, plen) in [("payload-255", 255usize), ("payload-256", 256), ("payload-257", 257), ("payload-65535", 65535), ("payload-65536", 65536), ("payload-65537", 65537)] {
+        // elements < 24 take one byte each; the array head takes 2 (len < 256) or 3 bytes
+        let n = if plen - 2 < 256 { plen - 2 } else { plen - 3 };
+        let v: Vec<u8> = (0..n).map(|i| (i % 23) as u8).collect();
+        let payload = array_payload(&v);
+        assert_eq!(payload.len(), plen);
+        out.push(Frame { declared: plen as u32, payload, value: Some(v), name });
+    }
+    out
+}
